@@ -24,6 +24,15 @@ def main(tier, only=None):
                 continue
             code = sum((1 if c == 'w' else 2) << (2 * i) for i, c in enumerate(h))
             shapes.append(('hx_files', [pol, lim, gens, code], '%s/limit%d/gens%d/%s' % ('counted' if pol == 0 else 'maxsize', lim, gens, h)))
+    # older generations already on disk, restart, then further rolls: histories of length 5-6 with one restart for the smallest limits
+    for (pol, lim, gens) in ((0, 1, 3), (0, 1, 2), (1, 4, 3), (0, 2, 3)):
+        for n in (5, 6):
+            for rpos in range(1, n - 1):
+                h = 'w' * rpos + 'r' + 'w' * (n - rpos - 1)
+                if tier == 'quick' and n == 6 and (pol, lim, gens) != (0, 1, 3):
+                    continue
+                code = sum((1 if c == 'w' else 2) << (2 * i) for i, c in enumerate(h))
+                shapes.append(('hx_files', [pol, lim, gens, code], '%s/limit%d/gens%d/%s' % ('counted' if pol == 0 else 'maxsize', lim, gens, h)))
     if only:
         shapes = [s for s in shapes if re.search(only, s[2])]
     model = os.path.join(HERE, 'verif_fstream_model.hpp')
